@@ -12,7 +12,7 @@ Definition B (s : string) : bytes := list_byte_of_string s.
 Arguments B s%string.
 
 (* python values stored in the result dicts *)
-Inductive pv := PZ (z : Z) | PS (s : bytes) | PB (b : bool).
+Inductive pv := PZ (z : Z) | PS (s : bytes) | PB (b : bool) | PD (d : list (bytes * pv)) | PL (l : list pv).
 Definition dict := list (bytes * pv).
 
 Fixpoint index_of (n : bytes) (names : list bytes) : option nat :=
